@@ -105,8 +105,11 @@ func c02(r *Report) propMeta {
 	r.NotAfter("resolve-before-expiry (invariant behind the accepted MustGetRequest panic)", "x/oracle.EndBlocker", CallEff("Keeper.ResolveRequest"), CallEff("Keeper.ProcessExpiredRequests"))
 	r.NotAfter("aggregate-before-expiry (invariant behind the accepted MustGetSigningAttempt panic)", "x/tss/keeper.Keeper.HandleSigningEndBlock", CallEff("Keeper.AggregatePartialSignatures"), CallEff("Keeper.HandleExpiredSignings"))
 
-	// R3 cross-module calls from end-block: commit boundary and recover barrier
+	r.Rule("C02.R6", "parameter safety: divisors and percentages")
+	r.ParamSafety("param-safety", fnSet(roots.Msg, roots.ABCI, roots.IBC, roots.Hook, roots.Ante), 3)
+
 	r.Rule("C02.R3", "E6 conditional commit + recover barrier")
+	// R3 cross-module calls from end-block: commit boundary and recover barrier
 	r.Commit("bandtss-create-signing", "x/bandtss/keeper.Keeper.createSigningRequest", "cache", roots, []string{"x/oracle/keeper.Keeper.safeCreateSigning", "x/tunnel/keeper.Keeper.ProduceActiveTunnelPacket"})
 	r.Commit("tss-initiate-round", "x/tss/keeper.Keeper.InitiateNewSigningRound", "cache", roots, []string{"x/tss/keeper.Keeper.HandleSigningEndBlock", "x/bandtss/keeper.TSSCallback.OnGroupCreationCompleted"})
 	r.Commit("bandtss-create-signing-recover", "x/bandtss/keeper.Keeper.CreateDirectSigningRequest", "recover", roots, []string{"x/oracle/keeper.Keeper.safeCreateSigning"})
@@ -141,7 +144,7 @@ func c02(r *Report) propMeta {
 			"R2 every explicit panic / Must* call reachable without a recover barrier from a begin/end-block root is in the frozen accepted table (a new one fails with its call path)",
 			"R3 signing creation / packet sending reached from end-block sits under a CacheContext whose writeFn is gated by err==nil, and cross-module routes sit under a defer-recover that assigns the named error result",
 			"R4 orderBeginBlockers/orderEndBlockers are literals of constants containing every module that implements Begin/EndBlock exactly once",
-			"R5 bandrng.NewRng is called only by the two committee selectors and its inputs derive only from the rolling seed, the id/nonce parameter and the chain id",
+			"R6 every governance parameter that consensus-reachable code divides by (integer / or %) is validated positive, and every one used as a percentage (NewDecWithPrec(x,2)) is validated <= 100 in its Params.Validate (finding F3, fixed)", "R5 bandrng.NewRng is called only by the two committee selectors and its inputs derive only from the rolling seed, the id/nonce parameter and the chain id",
 		},
 		Undecided: []string{"feasibility of the accepted panic sites (each rests on a store invariant recorded in the table, not proven)", "determinism of dependencies (SDK, go-owasm, IAVL)", "equality of gas across nodes beyond the absence of nondeterministic constructs"},
 		Assume:    []string{"begin/end-block panics are not recovered by the SDK; message panics are (runTx)", "VTA call graph over-approximates dynamic dispatch in repo code", "KV iterators are ordered"},
